@@ -13,6 +13,10 @@ FIELD = {
     "MAJOR": "major", "MINOR": "minor", "PATCH": "patch", "BUILD": "bid", "BLD": "bid", "TAG": "tag", "PYTAG": "pytag", "NUM": "num", "INC0": "inc0", "INC1": "inc1",
 }
 SEPS = [".", "-", "_", "+"]
+# literal text that ends in a digit next to a part (e.g. '20YY', 'rel-10MM', '.0MAJOR'): "literal text" of the documented
+# grammar; the renderer and the compiler must split such a pattern into the same parts
+DIGIT_SEPS = [".0", "-20", "_0", ".1."]
+DIGIT_PREFIXES = ["20", "rel-10", "r2", "0", "1"]
 LETTER_SEPS = ["w", "d", "q"]
 
 
@@ -39,13 +43,13 @@ def gen_pattern(rng, pep440_friendly=False):
         parts.append(rng.choice(["INC0", "INC1"]))
     tagged = rng.random() < 0.6
     # assemble with separators; the tail (tag [num]) goes into optional groups
-    prefix = rng.choice(["", "", "v", "ver-", "release "]) if not pep440_friendly else rng.choice(["", "v"])
+    prefix = rng.choice(["", "", "v", "ver-", "release "] + ([rng.choice(DIGIT_PREFIXES)] if rng.random() < 0.4 else [])) if not pep440_friendly else rng.choice(["", "v"])
     out = prefix
     order = []
     nopt = 0
     n_required = rng.randint(1, len(parts)) if parts else 0
     for i, p in enumerate(parts):
-        sep = "" if i == 0 else (rng.choice(LETTER_SEPS) if FIELD[p] in ("week_w", "week_u", "week_v", "doy", "quarter") and rng.random() < 0.5 and not pep440_friendly else (rng.choice(SEPS) if not pep440_friendly else "."))
+        sep = "" if i == 0 else (rng.choice(LETTER_SEPS) if FIELD[p] in ("week_w", "week_u", "week_v", "doy", "quarter") and rng.random() < 0.5 and not pep440_friendly else (rng.choice(SEPS + ([rng.choice(DIGIT_SEPS)] if rng.random() < 0.3 else [])) if not pep440_friendly else "."))
         zero_capable = p in ("MAJOR", "MINOR", "PATCH", "INC0", "NUM")
         if i >= n_required and zero_capable and rng.random() < 0.5 and nopt < 3:
             out += "[" + sep + p
